@@ -36,7 +36,7 @@ pub fn hex_sha224(pw: &str) -> String {
     String::from_utf8(dst[..56].to_vec()).expect("hex")
 }
 
-pub fn server_decode(cfg: &Value, src: &mut BytesMut) -> Result<(), String> {
+pub fn server_decode(cfg: &Value, src: &mut BytesMut) -> Result<bool, String> {
     let config = server_config("trojan", "pw", "aes-128-gcm", json!([]));
     let mut codec = new_trojan_codec(&config).map_err(|e| e.to_string())?;
     match cfg["state"].as_str().unwrap_or("Header") {
@@ -61,11 +61,11 @@ pub fn server_decode(cfg: &Value, src: &mut BytesMut) -> Result<(), String> {
         }
         s => return Err(format!("state {s}")),
     }
-    codec.decode(src).map(|_| ()).map_err(|e| e.to_string())
+    codec.decode(src).map(|o| crate::decode::item_of(&o)).map_err(|e| e.to_string())
 }
 
-pub fn client_udp_decode(src: &mut BytesMut) -> Result<(), String> {
+pub fn client_udp_decode(src: &mut BytesMut) -> Result<bool, String> {
     use octo_squirrel::protocol::address::Address;
     let mut c = ClientUdpCodec::new(b"pw", 3, Address::Socket("1.2.3.4:80".parse().unwrap()));
-    c.decode(src).map(|_| ()).map_err(|e| e.to_string())
+    c.decode(src).map(|o| crate::decode::item_of(&o)).map_err(|e| e.to_string())
 }
